@@ -48,6 +48,16 @@ def menu(fam, m):
     for bad in INVALID + [other_nd] + foreign[:2] + others:
         if bad.lower() not in [l.lower() for l in legal]:
             add([bad, legal[-1]])
+    # every token that is legal for SOME metric of this version but not for this one, in one go
+    # (e.g. S for MSC, which is legal for MSI/MSA only), then a legal value
+    union = []
+    for m2, vals in T.METRICS[fam].items():
+        for v in vals:
+            if v.lower() not in [l.lower() for l in legal] and v not in union:
+                union.append(v)
+    if union:
+        add(union + [legal[-1]])
+        add([u.lower() for u in union[::-1]] + [first])
     add([])                                   # end of input at this question
     add(["Q"])                                # invalid, then end of input
     add([" " + legal[-1] + " "])              # blank-padded (admitted: accept or re-ask)
